@@ -291,12 +291,14 @@ func makeOverlay(dir string) (string, string) {
 // ---------------------------------------------------------------------------
 
 type workerResult struct {
-	viols        []*violRec
-	nondet       []string
-	stats        []map[string]interface{}
-	done         uint64
-	procFail     []procFailure
-	inconclusive int
+	viols             []*violRec
+	nondet            []string
+	stats             []map[string]interface{}
+	done              uint64
+	procFail          []procFailure
+	inconclusive      int
+	unconfirmedDeaths int
+	suspects          []*violRec
 }
 
 type violRec struct {
@@ -421,6 +423,10 @@ func readResults(path string, res *workerResult) (lastStart int64, lastSim strin
 		case "nondeterministic":
 			open = -1
 			res.nondet = append(res.nondet, fmt.Sprintf("run %d: %s", l.I, l.Msg))
+		case "suspect":
+			open = -1
+			res.done++
+			res.suspects = append(res.suspects, &violRec{rp: l.Viol, file: l.File})
 		case "inconclusive":
 			open = -1
 			res.done++
@@ -484,15 +490,27 @@ func runWorker(s *scratch, cfg *propCfg, prop, tier string, seed, from, n uint64
 		var werr error
 		select {
 		case werr = <-doneCh:
-		case <-time.After(time.Until(deadline) + 30*time.Second):
+		case <-time.After(time.Until(deadline) + 120*time.Second):
 			cmd.Process.Kill()
 			<-doneCh
 			return fmt.Errorf("worker %d exceeded its watchdog (budget %v)", wid, budget)
 		}
+		nSus := len(res.suspects)
 		open, sim := readResults(out, res)
 		code := exitCode(werr)
 		if code == 0 {
 			return nil
+		}
+		if code == 79 && len(res.suspects) > nSus {
+			// the worker found that it carries state from one execution to the next and stopped;
+			// continue after that run in a fresh process
+			adv := res.suspects[len(res.suspects)-1].rp.Index + 1 - from
+			from += adv
+			n -= adv
+			if len(res.suspects) >= 3 {
+				return nil
+			}
+			continue
 		}
 		if open < 0 {
 			se := stderr.String()
@@ -632,19 +650,59 @@ func cmdCheck(args []string) {
 		agg.procFail = append(agg.procFail, r.procFail...)
 		agg.done += r.done
 		agg.inconclusive += r.inconclusive
+		agg.suspects = append(agg.suspects, r.suspects...)
 	}
 	if len(agg.nondet) > 0 {
 		s.cleanup()
 		die(2, "non-deterministic harness: %d runs did not replay identically, e.g. %s", len(agg.nondet), agg.nondet[0])
 	}
 	// process-level failures become violations after fresh-process confirmation
+	sort.Slice(agg.procFail, func(i, j int) bool { return agg.procFail[i].index < agg.procFail[j].index })
+	confirmedPF := 0
 	for _, pf := range agg.procFail {
+		if confirmedPF >= 3 {
+			// enough: each confirmation is minimised across fresh processes, which is slow; the rest
+			// are further deaths of the same batch and are only counted
+			agg.unconfirmedDeaths++
+			continue
+		}
 		if v := confirmProcFailure(s, cfg, prop, tier, seed, pf); v != nil {
 			agg.viols = append(agg.viols, v)
+			confirmedPF++
 		} else {
 			s.cleanup()
 			die(2, "worker died (exit %d) at run %d but the failure did not reproduce in a fresh process:\n%s", pf.exit, pf.index, pf.stderr)
 		}
+	}
+	// suspects: violations that did not reproduce inside the worker that found them; a fresh process decides
+	sort.Slice(agg.suspects, func(i, j int) bool { return agg.suspects[i].rp.Index < agg.suspects[j].rp.Index })
+	for k, sv := range agg.suspects {
+		if k >= 3 {
+			break
+		}
+		try := func(file string) bool {
+			cmd := exec.Command(s.worker, "try", "-q", "-file", file)
+			cmd.Env = workerEnv(cfg)
+			return exitCode(cmd.Run()) == 0
+		}
+		if !try(sv.file) {
+			s.cleanup()
+			die(2, "non-deterministic harness: violation %s (%s) reproduced neither in its own process nor in a fresh one; replay file %s\n%s", sv.rp.Class, sv.rp.Signature, sv.file, sv.rp.Detail)
+		}
+		// minimise across fresh processes
+		if cfg.procShrink > 0 {
+			cand := filepath.Join(s.dir, "suspect-cand.json")
+			min, tests := tape.Shrink(sv.rp.Tape, func(t *tape.Tape) bool {
+				c := *sv.rp
+				c.Tape = t
+				return c.Write(cand) == nil && try(cand)
+			}, cfg.procShrink)
+			sv.rp.Tape, sv.rp.MinLen, sv.rp.Shrinks = min, min.Len(), tests
+			sv.rp.Write(sv.file)
+		}
+		sv.rp.Detail += "\n(the violation does not reproduce when the same tape is executed a second time in one process: the library carries state from one execution to the next; confirmed and minimised in fresh processes)"
+		sv.rp.Write(sv.file)
+		agg.viols = append(agg.viols, sv)
 	}
 	// confirm every in-process violation in a fresh process
 	type outV struct {
@@ -666,7 +724,7 @@ func cmdCheck(args []string) {
 		if seen[key] {
 			continue
 		}
-		if v.rp.Extra["process_level"] == "" {
+		if v.rp.Extra["process_level"] == "" && v.rp.Extra["needs_fresh_process"] == "" {
 			cmd := exec.Command(s.worker, "replay", "-q", "-file", v.file)
 			cmd.Env = workerEnv(cfg)
 			err := cmd.Run()
@@ -934,7 +992,11 @@ func cmdReplay(args []string) {
 		s.cleanup()
 		die(2, "%v", err)
 	}
-	cmd := exec.Command(s.worker, "replay", "-file", args[0])
+	mode := "replay"
+	if rp.Extra["needs_fresh_process"] != "" {
+		mode = "try" // same class in a fresh process; the event log of a process that carries state is not comparable
+	}
+	cmd := exec.Command(s.worker, mode, "-file", args[0])
 	cmd.Env = workerEnv(cfg)
 	cmd.Stdout = os.Stdout
 	cmd.Stderr = os.Stderr
@@ -949,7 +1011,7 @@ func cmdReplay(args []string) {
 		fmt.Printf("replay: the process-level failure (exit %s) did not reproduce (exit %d)\n", pl, code)
 		return
 	}
-	if code == 1 {
+	if code == 1 || (mode == "try" && code == 0) {
 		fmt.Printf("VIOLATION property=%s replay=%s\n", rp.Property, args[0])
 		s.cleanup()
 		os.Exit(1)
